@@ -413,17 +413,19 @@ impl<R: RefCounter, PR: PathRefCounter, H: Header> Memory<R, PR, H> {
 
           (CURRENT_VERSION, magic_version)
         } else {
+          // validate first: a file that is not ours must be refused without being touched
+          super::sanity_check(
+            Some(freelist),
+            magic_version,
+            &mmap[reserved..reserved + mem::align_of::<H>()],
+          )?;
+
           let allocated = (*header_ptr).load_allocated() as usize;
 
           if cap > allocated {
             ptr::write_bytes(ptr.add(allocated), 0, cap - allocated as usize);
           }
 
-          super::sanity_check(
-            Some(freelist),
-            magic_version,
-            &mmap[reserved..reserved + mem::align_of::<H>()],
-          )?;
           (CURRENT_VERSION, magic_version)
         };
 
